@@ -456,6 +456,9 @@ pub struct HostFaults {
     pub tx_ts_late_ppm: u64,
     pub tx_ts_late_max: Tt,
     pub tx_ts_lost_ppm: u64,
+    /// constant latency of the transmit-timestamp path (a property of the host, not a fault:
+    /// applies whether or not fault injection is on)
+    pub tx_ts_latency: Tt,
     pub timer_late_ppm: u64,
     pub timer_late_max: Tt,
     /// draw a random tie-break for same-instant events
@@ -1077,6 +1080,10 @@ impl World {
             } else if self.faults_on && self.hostf.tx_ts_late_ppm > 0 && ch.chance(S_HOST, self.hostf.tx_ts_late_ppm, 1_000_000) {
                 self.out.fault("tx_timestamp_late");
                 let d = ch.range(S_HOST, 1, (self.hostf.tx_ts_late_max / US).max(1) as u64) as u128 * US;
+                self.schedule(self.now() + d, Ev::TxTs { node: ni, port: pi, ctx: id, stamp, epoch }, Some(ch));
+            } else if self.hostf.tx_ts_latency > 0 {
+                self.out.probe("tx_timestamp_delivered_after_constant_latency");
+                let d = self.hostf.tx_ts_latency;
                 self.schedule(self.now() + d, Ev::TxTs { node: ni, port: pi, ctx: id, stamp, epoch }, Some(ch));
             } else {
                 // "send, then immediately report the TX timestamp"
